@@ -9,6 +9,7 @@ package leanhelix
 import (
 	"context"
 	"github.com/orbs-network/lean-helix-go/services/blockheight"
+	"github.com/orbs-network/lean-helix-go/services/blockproof"
 	"github.com/orbs-network/lean-helix-go/services/blockreferencetime"
 	"github.com/orbs-network/lean-helix-go/services/interfaces"
 	"github.com/orbs-network/lean-helix-go/services/leanhelixterm"
@@ -141,7 +142,10 @@ func (lh *WorkerLoop) ValidateBlockConsensus(ctx context.Context, block interfac
 		return errors.Errorf("ValidateBlockConsensus: nil blockProof")
 	}
 
-	blockProof := protocol.BlockProofReader(blockProofBytes)
+	blockProof, err := blockproof.ReadBlockProof(blockProofBytes)
+	if err != nil {
+		return errors.Wrap(err, "ValidateBlockConsensus")
+	}
 	blockRefFromProof := blockProof.BlockRef()
 	if blockRefFromProof.MessageType() != protocol.LEAN_HELIX_COMMIT {
 		return errors.Errorf("ValidateBlockConsensus: Message is not COMMIT, it is %v", blockRefFromProof.MessageType())
@@ -209,7 +213,10 @@ func (lh *WorkerLoop) ValidateBlockConsensus(ctx context.Context, block interfac
 		return errors.Errorf("ValidateBlockConsensus: blockProof does not contain randomSeed")
 	}
 
-	prevBlockProof := protocol.BlockProofReader(maybePrevBlockProofBytes)
+	prevBlockProof, err := blockproof.ReadBlockProof(maybePrevBlockProofBytes)
+	if err != nil {
+		return errors.Wrap(err, "ValidateBlockConsensus: previous block proof")
+	}
 	if err := randomseed.ValidateRandomSeed(lh.config.KeyManager, blockHeight, blockProof, prevBlockProof); err != nil {
 		return errors.Wrapf(err, "ValidateBlockConsensus: ValidateRandomSeed() failed")
 	}
